@@ -144,10 +144,11 @@ def evaluate(run: Run, known, case: dict, res: dict) -> None:
 
 def check(run: Run, ctx) -> None:
     known = findings.Known(run, PROP)
-    try:
-        g.run_corr(run, ctx, "vf.corr.conv", "Conv (structure/unstructure/union/serializer)", quick=0.5, thorough=5.0)
-    except ModuleNotFoundError:
-        run.notes.append("vf.corr.conv not present yet")
+    g.run_corr(run, ctx, "vf.corr.conv", "Conv (structure/unstructure/union/serializer vs the real converter)", quick=0.5, thorough=5.0)
+    from .C14 import _Scoped
+    conv_classes = {"leaf-uuid-unsupported": "F10", "leaf-time-unsupported": "F10", "union-firstmatch-lossy": "-", "union-prim-coercion": "-",
+                    "error-path-lost-through-optional": "-", "serializer-cycle-recursion": "-", "serializer-dict-leaks-instance": "-", "serializer-registry-dependent": "-"}
+    g.run_oracle(run, ctx, _Scoped(known, conv_classes), "vf.corr.conv", "converter laws on the real converter", conv_classes, quick=0.5, thorough=5.0)
     run.cov["rule"] = (run.cov.get("rule") or "") + ("[e2e] seeded random schema sets -> generated models imported in a fresh interpreter -> 3 type-directed conforming instances per object "
                        "schema (nested objects, lists, maps, nullable, date-time/date/byte[/uuid/time], camelCase/kebab/keyword-like property names) -> structure_from_dict then "
                        "unstructure_to_dict with the package's own core; distinct by (document, instance); non-trivial when the instance is non-empty")
